@@ -20,9 +20,11 @@ package pod_info
 //@ import gr "github.com/NVIDIA/KAI-scheduler/pkg/binder/plugins/gpusharing/gpu-request"
 
 // the GPU part of the pod's request as the scheduler sees it
-//@ define gpuUnchanged(pi *PodInfo) bool = pi.ResReq.portion == old(pi.ResReq.portion) && pi.ResReq.count == old(pi.ResReq.count) && pi.ResReq.gpuMemory == old(pi.ResReq.gpuMemory) && pi.ResReq.migResources == old(pi.ResReq.migResources) && pi.ResReq.draGpuCounts == old(pi.ResReq.draGpuCounts)
+// same float, NaN included (IEEE == is false on NaN)
+//@ define sameF(a real, b real) bool = a == b || (isnan(a) && isnan(b))
+//@ define gpuUnchanged(pi *PodInfo) bool = sameF(pi.ResReq.portion, old(pi.ResReq.portion)) && pi.ResReq.count == old(pi.ResReq.count) && pi.ResReq.gpuMemory == old(pi.ResReq.gpuMemory) && pi.ResReq.migResources == old(pi.ResReq.migResources) && pi.ResReq.draGpuCounts == old(pi.ResReq.draGpuCounts)
 
-//@ define gpuUnchanged0(pi *PodInfo) bool = pi.ResReq.portion == old(pi.ResReq.portion) && pi.ResReq.count == old(pi.ResReq.count) && pi.ResReq.gpuMemory == old(pi.ResReq.gpuMemory) && pi.ResReq.migResources == old(pi.ResReq.migResources)
+//@ define gpuUnchanged0(pi *PodInfo) bool = sameF(pi.ResReq.portion, old(pi.ResReq.portion)) && pi.ResReq.count == old(pi.ResReq.count) && pi.ResReq.gpuMemory == old(pi.ResReq.gpuMemory) && pi.ResReq.migResources == old(pi.ResReq.migResources)
 
 // legacy MIG pods: an annotation named like a MIG resource replaces the GPU request.  Needed by
 // updatePodAdditionalFields: when no such annotation is applied the GPU request is untouched.
@@ -42,17 +44,38 @@ package pod_info
 //@ define sFracOk(pod *v1.Pod) bool = resources.pfOk(resources.fracStr(pod)) && !(resources.pfVal(resources.fracStr(pod)) <= 0.0) && !(resources.pfVal(resources.fracStr(pod)) > 1.0)
 //@ define sMemOk(pod *v1.Pod) bool = resources.piOk(resources.memStr(pod)) && resources.piVal(resources.memStr(pod)) > 0
 //@ define sCountUsed(pod *v1.Pod) bool = resources.hasCount(pod) && resources.countStr(pod) != "" && resources.piOk(resources.countStr(pod))
-// what admission / the binder plugin accept: gr.ValidateGpuRequests(pod) == nil, by its [exact] postcondition
-//@ define admitted(pod *v1.Pod) bool = !gr.badCombination(pod) && gr.valuesOkCode(pod)
+// what admission / the binder plugin accept: gr.ValidateGpuRequests(pod) == nil is, by its proved
+// postcondition [exact], exactly this predicate
+//@ define admitted(pod *v1.Pod) bool = !gr.badCombination(pod) && gr.valuesWellFormed(pod)
+// the device count admission accepted (default 1)
+//@ define admittedCount(pod *v1.Pod) int = ite(resources.hasCount(pod), resources.piVal(resources.countStr(pod)), 1)
 
 //@ func (*PodInfo).updatePodAdditionalFields
 //@   props C19 C10
 //@   ieee
 //@   requires pi != nil && pi.Pod != nil && pi.ResReq != nil
-//@   requires !pi.IsLegacyMIGtask
+//@   requires !pi.IsLegacyMIGtask && pi.VectorMap != nil && pi.ResourceRequestType == RequestTypeRegular   // as set by the constructor, its only caller
+//@   requires bindRequest != nil ==> bindRequest.BindRequest != nil
 //@   modifies pi.GPUGroups, pi.ResourceReceivedType, pi.ResReq.GpuResourceRequirement, pi.ResourceRequestType, pi.ResReqVector, pi.IsLegacyMIGtask
+// C19 (top level, agreement): "Every GPU request that admission accepts ... denotes a finite positive
+// quantity which the scheduler interprets as exactly that request".  (Legacy MIG annotations replace the
+// request altogether and are outside the property: clauses are stated for pods without one.)
+// Before fix 1c0b67c: red for "NaN" (portion NaN, count 0), for gpu-memory above MaxInt64 (scheduler saw no
+// GPU request) and for a device count above MaxInt64 (scheduler used 1).
+//@   ensures [agree-fraction] admitted(pi.Pod) && resources.hasFrac(pi.Pod) && !pi.IsLegacyMIGtask ==> pi.ResourceRequestType == RequestTypeFraction && isfinite(pi.ResReq.portion) && pi.ResReq.portion == resources.pfVal(resources.fracStr(pi.Pod)) && fval(pi.ResReq.portion) > 0.0 && fval(pi.ResReq.portion) < 1.0 && pi.ResReq.gpuMemory == 0
+//@   ensures [agree-memory] admitted(pi.Pod) && resources.hasMem(pi.Pod) && !pi.IsLegacyMIGtask ==> pi.ResourceRequestType == RequestTypeGpuMemory && pi.ResReq.gpuMemory == resources.piVal(resources.memStr(pi.Pod)) && pi.ResReq.gpuMemory >= 1 && pi.ResReq.portion == 0.0
+//@   ensures [agree-count] admitted(pi.Pod) && (resources.hasFrac(pi.Pod) || resources.hasMem(pi.Pod)) && !pi.IsLegacyMIGtask ==> pi.ResReq.count == admittedCount(pi.Pod) && pi.ResReq.count >= 1
+//@   ensures [agree-no-sharing] admitted(pi.Pod) && !resources.hasFrac(pi.Pod) && !resources.hasMem(pi.Pod) && !pi.IsLegacyMIGtask ==> gpuUnchanged0(pi) && pi.ResourceRequestType != RequestTypeFraction && pi.ResourceRequestType != RequestTypeGpuMemory
+// C19 (converse): what the scheduler treats as a sharing request carries a sharing annotation, hence is
+// subject to admission's checks (rejected when malformed: ValidateGpuRequests [exact]; rejected when GPU
+// sharing is disabled: (*GPUSharing).Validate [sharing-disabled]).
+//@   ensures [sharing-implies-annotation] pi.ResourceRequestType == RequestTypeFraction || pi.ResourceRequestType == RequestTypeGpuMemory ==> resources.hasFrac(pi.Pod) || resources.hasMem(pi.Pod)
+//@   ensures [sharing-type-fraction-wf] !pi.IsLegacyMIGtask && pi.ResourceRequestType == RequestTypeFraction && !admitted(pi.Pod) ==> gr.badCombination(pi.Pod) || !gr.valuesWellFormed(pi.Pod)
 // functional description of the scheduler's interpretation (helper level, from the code)
-//@   ensures [sched-fraction] !pi.IsLegacyMIGtask && sFracOk(pi.Pod) ==> pi.ResReq.portion == ite(resources.pfVal(resources.fracStr(pi.Pod)) >= 1.0, 1.0, resources.pfVal(resources.fracStr(pi.Pod))) && pi.ResReq.gpuMemory == ite(sCountUsed(pi.Pod) && sMemOk(pi.Pod), resources.piVal(resources.memStr(pi.Pod)), 0)
+//@   ensures [sched-fraction-single] !pi.IsLegacyMIGtask && sFracOk(pi.Pod) && !sCountUsed(pi.Pod) ==> sameF(pi.ResReq.portion, resources.pfVal(resources.fracStr(pi.Pod))) && pi.ResReq.count == ite(resources.pfVal(resources.fracStr(pi.Pod)) > 0.0, 1, 0) && pi.ResReq.gpuMemory == 0
+//@   ensures [sched-memory-single] !pi.IsLegacyMIGtask && !sFracOk(pi.Pod) && sMemOk(pi.Pod) && !sCountUsed(pi.Pod) ==> pi.ResReq.portion == 0.0 && pi.ResReq.count == 1 && pi.ResReq.gpuMemory == resources.piVal(resources.memStr(pi.Pod))
+// with a usable device count the raw parse results are taken, whatever they are
+//@   ensures [sched-multi] !pi.IsLegacyMIGtask && (sFracOk(pi.Pod) || sMemOk(pi.Pod)) && sCountUsed(pi.Pod) ==> sameF(pi.ResReq.portion, resources.pfVal(resources.fracStr(pi.Pod))) && pi.ResReq.count == resources.piVal(resources.countStr(pi.Pod)) && pi.ResReq.gpuMemory == resources.piVal(resources.memStr(pi.Pod))
 //@   ensures [sched-type-fraction] !pi.IsLegacyMIGtask && sFracOk(pi.Pod) ==> pi.ResourceRequestType == RequestTypeFraction
 //@   ensures [sched-type-memory] !pi.IsLegacyMIGtask && !sFracOk(pi.Pod) && sMemOk(pi.Pod) ==> pi.ResourceRequestType == RequestTypeGpuMemory
 //@   ensures [sched-not-sharing] !pi.IsLegacyMIGtask && !sFracOk(pi.Pod) && !sMemOk(pi.Pod) ==> gpuUnchanged0(pi) && (pi.ResourceRequestType == old(pi.ResourceRequestType) || pi.ResourceRequestType == RequestTypeMigInstance)
